@@ -38,8 +38,9 @@ func (h *transportHandler) HandleLinkEstablished(lnk link.Link) {
 		return
 	}
 
-	// use MaybeAsync to avoid deadlocks if the transport author was not careful.
-	h.c.bcast.HoldLockMaybeAsync(func(broadcast func(), getWaitCh func() <-chan struct{}) {
+	// handle the reports in the order they arrive: a deferred report could be overtaken
+	// by a later one (the loss of this link, or a newer link with the same uuid).
+	h.c.bcast.HoldLock(func(broadcast func(), getWaitCh func() <-chan struct{}) {
 		execCtx := h.c.execCtx
 		if execCtx == nil {
 			le.Warn("link established while transport exited, closing link")
@@ -86,7 +87,7 @@ func (h *transportHandler) HandleLinkEstablished(lnk link.Link) {
 
 // HandleLinkLost is called when a link is lost.
 func (h *transportHandler) HandleLinkLost(lnk link.Link) {
-	h.c.bcast.HoldLockMaybeAsync(func(broadcast func(), getWaitCh func() <-chan struct{}) {
+	h.c.bcast.HoldLock(func(broadcast func(), getWaitCh func() <-chan struct{}) {
 		// fast path: clear by uuid
 		luuid := lnk.GetUUID()
 		if el, elOk := h.c.links[luuid]; elOk && el.lnk == lnk {
